@@ -1,4 +1,5 @@
 import FsutilModel.Model.CopyB
+import FsutilModel.Lemmas.C16
 /-! # C16 — include/exclude selection: nothing else is written -/
 namespace Fsm.C16
 open C
@@ -16,5 +17,48 @@ theorem not_selected_no_effect (a : Args) (srcSub : List Snap) (srcRel dstFinal 
 /-- the copied source itself (relative path "") is always selected -/
 theorem root_always_selected (a : Args) : included a [] = true := by
   simp [included]
+
+/-! ## The copier and the filtered walk decide alike
+
+`copy.go` threads `patternmatcher.MatchInfo` down its own recursion (`C.included`, which recomputes the parent-result
+chain along the ancestors of an entry); `filter.go` keeps the infos on its directory stack. The two are compared step by
+step: whenever the stack is topped by the chain infos of the entry's ancestors, the callback of `filterFS.Walk` (pruning
+off, no map function) reports the entry exactly when the copier selects it — and what it pushes re-establishes that
+premise for the entries below. -/
+
+/-- the copier's selection is the chain verdict (for every pattern list and path below the copied source) -/
+theorem copier_selection_is_chain (a : C.Args) (rel : Path) (h : rel ≠ []) :
+    C.included a rel = C16L.selected a.inc a.exc rel :=
+  C16L.included_eq_selected a rel h
+
+/-- **one step of the filtered walk = the copier's decision**, for every configuration, stack and entry -/
+theorem walk_step_decides_as_copier (cfg : F.Cfg) (hp : cfg.prune = false) (hm : cfg.map = []) (pd0 : List F.VDir) (e : StatE)
+    (a : C.Args) (hai : a.inc = cfg.inc) (hae : a.exc = cfg.exc) (hne : e.path ≠ [])
+    (hsk : ∀ d ∈ C16L.stackFor cfg pd0 e, d.skipFn = false)
+    (hinc : (((C16L.stackFor cfg pd0 e).getLast?).map (·.inc)).getD [] = C16L.chainInfo cfg.inc (P.parentPrefixes e.path))
+    (hexc : (((C16L.stackFor cfg pd0 e).getLast?).map (·.exc)).getD [] = C16L.chainInfo cfg.exc (P.parentPrefixes e.path)) :
+    (F.callback true cfg pd0 e).2.2 = .cont ∧
+    ((F.callback true cfg pd0 e).2.1.getLast? = some e ↔ C.included a e.path = true) ∧
+    (C.included a e.path = false → (F.callback true cfg pd0 e).2.1 = []) := by
+  rw [C16L.included_eq_selected a e.path hne, hai, hae]
+  exact C16L.callback_decision cfg hp hm pd0 e hsk hinc hexc
+
+/-- the premise is re-established for the entries directly below a directory -/
+theorem walk_step_keeps_premise (cfg : F.Cfg) (hp : cfg.prune = false) (hm : cfg.map = []) (pd0 : List F.VDir) (e : StatE)
+    (hsk : ∀ d ∈ C16L.stackFor cfg pd0 e, d.skipFn = false)
+    (hinc : (((C16L.stackFor cfg pd0 e).getLast?).map (·.inc)).getD [] = C16L.chainInfo cfg.inc (P.parentPrefixes e.path))
+    (hexc : (((C16L.stackFor cfg pd0 e).getLast?).map (·.exc)).getD [] = C16L.chainInfo cfg.exc (P.parentPrefixes e.path))
+    (hd : e.isDir = true) (hf : (!cfg.inc.isEmpty || !cfg.exc.isEmpty) = true) :
+    ∃ d, (F.callback true cfg pd0 e).1.getLast? = some d ∧ d.skipFn = false ∧ d.pathSep = e.path ++ [47] ∧
+      d.inc = C16L.chainInfo cfg.inc (P.parentPrefixes e.path ++ [e.path]) ∧
+      d.exc = C16L.chainInfo cfg.exc (P.parentPrefixes e.path ++ [e.path]) :=
+  C16L.callback_pushes_chain cfg hp hm pd0 e hsk hinc hexc hd hf
+
+/-- the premise holds at the top level with the empty stack (non-vacuity: the first entry of every walk) -/
+example (cfg : F.Cfg) (e : StatE) (h : P.parentPrefixes e.path = []) :
+    (((C16L.stackFor cfg [] e).getLast?).map (·.inc)).getD [] = C16L.chainInfo cfg.inc (P.parentPrefixes e.path) := by
+  rw [h]
+  unfold C16L.stackFor
+  split <;> simp [F.callback.pop, C16L.chainInfo_nil]
 
 end Fsm.C16
